@@ -211,6 +211,24 @@ pub fn gen_plan(seed: u64, p: &Profile) -> Plan {
             stop_stage,
         });
     }
+    // coinciding message slots: in a share of the channels the two balances are made equal, at
+    // establishment or by the first payment (a separate stream, so that the rest of the plan is
+    // what it would have been)
+    let mut s2 = Sched::new(seed, "plangen/coincide");
+    for ch in channels.iter_mut() {
+        match s2.usize(8) {
+            0 => ch.merch_bal = ch.cust_bal,
+            1 => {
+                let d = ch.cust_bal as i128 - ch.merch_bal as i128;
+                if d != 0 && d % 2 == 0 {
+                    if let Some(p0) = ch.payments.first_mut() {
+                        p0.amount = clamp_i64(d / 2);
+                    }
+                }
+            }
+            _ => {}
+        }
+    }
     let order: Vec<u8> = (0..16).map(|_| s.usize(8) as u8).collect();
     Plan {
         seed,
